@@ -210,35 +210,72 @@ def shape_of(obs):
     return [(c["k"], codenum(c.get("code", "")) if c["k"] == 0 else 0) for c in obs.get("chain") or []]
 
 
-def produces(an, i, shape, fuel=40, memo=None):
-    """python mirror of ErrFlow.produces (used to pre-filter; Coq re-evaluates the distinct shapes)"""
-    if memo is None:
-        memo = {}
-    key = (i, tuple(shape), fuel)
-    if key in memo:
-        return memo[key]
-    memo[key] = False
-    res = False
-    n = an["byid"].get(i)
-    if n is not None and fuel > 0 and shape:
-        k = n["kind"]
-        (hk, hc), rest = shape[0], shape[1:]
-        if k == "fun":
-            res = any(produces(an, m, shape, fuel - 1, memo) for m in n["inner"])
-        elif k == "leaf":
-            res = not rest and hk == 0 and hc == n["codenum"]
-        elif k == "ctx":
-            res = not rest and hk == 2
-        elif k in ("bare", "unknown"):
-            res = not rest and hk == 3
-        elif k == "rewrapv":
-            res = not rest and ((hk == 3) if n["codenum"] == 0 else (hk == 0 and hc == n["codenum"]))
-        elif k == "wrapw":
-            res = hk == 1 and any(produces(an, m, rest, fuel - 1, memo) for m in n["inner"])
-        elif k == "cause":
-            res = hk == 0 and hc == n["codenum"] and any(produces(an, m, rest, fuel - 1, memo) for m in n["inner"])
-    memo[key] = res
+def _inhab(an):
+    """nodes that can evaluate to some error value"""
+    if "_inhab" in an:
+        return an["_inhab"]
+    S = set(n["id"] for n in an["nodes"] if n["kind"] in ("leaf", "ctx", "bare", "unknown"))
+    ch = True
+    while ch:
+        ch = False
+        for n in an["nodes"]:
+            if n["id"] in S:
+                continue
+            src = n["dropped"] if n["kind"] == "rewrapv" else n["inner"]
+            if any(m in S for m in src):
+                S.add(n["id"]); ch = True
+    an["_inhab"] = S
+    return S
+
+
+def _close(an, S):
+    S = set(S)
+    ch = True
+    while ch:
+        ch = False
+        for n in an["nodes"]:
+            if n["kind"] == "fun" and n["id"] not in S and any(m in S for m in n["inner"]):
+                S.add(n["id"]); ch = True
+    return S
+
+
+def prod_set(an, shape, memo=None):
+    """python mirror of ErrFlow.prod_set: the nodes that can produce the chain shape"""
+    memo = an.setdefault("_prod", {}) if memo is None else memo
+    shape = tuple(shape)
+    if not shape:
+        return set()
+    if shape in memo:
+        return memo[shape]
+    # iterative from the end (chains of nested constructs are long)
+    res = None
+    for k in range(len(shape) - 1, -1, -1):
+        suf = shape[k:]
+        if suf in memo:
+            res = memo[suf]
+            continue
+        hk, hc = suf[0]
+        base = set()
+        if len(suf) == 1:
+            inh = _inhab(an)
+            for n in an["nodes"]:
+                kd = n["kind"]
+                if (kd == "leaf" and hk == 0 and hc == n["codenum"]) or (kd == "ctx" and hk == 2 and hc == 0) or \
+                   (kd in ("bare", "unknown") and hk == 3 and hc == 0) or \
+                   (kd == "rewrapv" and ((hk == 3 and hc == 0) if n["codenum"] == 0 else (hk == 0 and hc == n["codenum"])) and any(m in inh for m in n["dropped"])):
+                    base.add(n["id"])
+        else:
+            for n in an["nodes"]:
+                kd = n["kind"]
+                if ((kd == "wrapw" and hk == 1 and hc == 0) or (kd == "cause" and hk == 0 and hc == n["codenum"])) and any(m in res for m in n["inner"]):
+                    base.add(n["id"])
+        res = _close(an, base)
+        memo[suf] = res
     return res
+
+
+def produces(an, i, shape):
+    return i in prod_set(an, shape)
 
 
 def sites_matching(an, elem):
